@@ -1,12 +1,473 @@
-//! C09 - not built yet.
-use crate::run::Ctx;
-use serde_json::Value;
+//! C09 - durations form a consistent signed quantity without a reference date.
 
-pub fn run(_ctx: &mut Ctx) {
-    eprintln!("property C09 has no check yet");
-    std::process::exit(2);
+use crate::chk;
+use crate::conv::*;
+use crate::gen;
+use crate::refm::dur::*;
+use crate::refm::exact::{ratio_to_f64, ulp_distance};
+use crate::refm::round::{round_int, Mode};
+use crate::run::*;
+use crate::tzp::TableProvider;
+use proptest::prelude::*;
+use serde::{Deserialize, Serialize};
+use serde_json::Value;
+use std::cmp::Ordering;
+use temporal_rs::error::ErrorKind;
+use temporal_rs::options::Unit;
+use temporal_rs::partial::PartialDuration;
+use temporal_rs::{Duration, Sign};
+
+// ------------------------------------------------------------------------------------------
+// validity of ten integral doubles
+
+#[derive(Serialize, Deserialize, Debug, Clone)]
+pub struct NewCase {
+    pub f: [f64; 10],
+    /// bit i set: field i is supplied to from_partial_duration (others absent)
+    pub mask: u16,
+}
+pub struct NewSub;
+impl SubCheck for NewSub {
+    type Case = NewCase;
+    fn name(&self) -> &'static str {
+        "new"
+    }
+    fn eval(&self, c: &NewCase) -> Outcome {
+        let want = valid_f64s(&c.f);
+        let nz = c.f.iter().filter(|v| **v != 0.0).count();
+        let big = c.f.iter().any(|v| v.abs() >= 2147483648.0);
+        let neg = c.f.iter().any(|v| *v < 0.0);
+        let near = Dur::from_f64s(&c.f).map(|d| (d.time_ns_with_days().abs() - MAX_TIME_NS).abs() <= 1_000_000_000).unwrap_or(false);
+        let mut o = Outcome::pass().nontrivial(nz >= 2 || big || near || neg);
+        o = o.class(if want { "valid" } else { "invalid" });
+        if near {
+            o = o.class("within-1s-of-2^53s");
+        }
+        if big {
+            o = o.class("field>=2^31");
+        }
+        let mixed = c.f.iter().any(|v| *v > 0.0) && c.f.iter().any(|v| *v < 0.0);
+        if mixed {
+            o = o.class("mixed-signs");
+        }
+        let got = duration_from_f64s(&c.f);
+        match &got {
+            Ok(d) => {
+                chk!(o, want, "C09/new/accepted-invalid", "RangeError", c.f);
+                chk!(o, fields_eq(&duration_fields(d), &c.f), "C09/new/fields-altered", c.f, duration_fields(d));
+                // sign / negated / abs / is_zero behave as on signed numbers
+                let s = c.f.iter().find(|v| **v != 0.0).map(|v| v.signum()).unwrap_or(0.0);
+                let ws = if s > 0.0 { Sign::Positive } else if s < 0.0 { Sign::Negative } else { Sign::Zero };
+                chk!(o, d.sign() == ws, "C09/sign", format!("{ws:?}"), format!("{:?}", d.sign()));
+                chk!(o, d.is_zero() == (s == 0.0), "C09/is_zero", s == 0.0, d.is_zero());
+                let neg: Vec<f64> = c.f.iter().map(|v| -*v).collect();
+                let gn = duration_fields(&d.negated());
+                chk!(o, gn.iter().zip(neg.iter()).all(|(a, b)| a == b), "C09/negated", neg, gn);
+                let gnn = duration_fields(&d.negated().negated());
+                chk!(o, fields_eq(&gnn, &c.f), "C09/negated-twice", c.f, gnn);
+                let ab: Vec<f64> = c.f.iter().map(|v| v.abs()).collect();
+                let ga = duration_fields(&d.abs());
+                chk!(o, ga.iter().zip(ab.iter()).all(|(a, b)| a == b), "C09/abs", ab, ga);
+            }
+            Err(e) => {
+                chk!(o, !want, "C09/new/rejected-valid", "Ok", err_str(e));
+                chk!(o, e.kind() == ErrorKind::Range, "C09/new/error-kind", "Range", err_str(e));
+            }
+        }
+        // partial: absent fields are zero; all absent -> TypeError
+        let mut p = PartialDuration::default();
+        let mut g = [0.0f64; 10];
+        for i in 0..10 {
+            if c.mask & (1 << i) != 0 {
+                g[i] = c.f[i];
+                let v = Some(ff(c.f[i]));
+                match i {
+                    0 => p.years = v,
+                    1 => p.months = v,
+                    2 => p.weeks = v,
+                    3 => p.days = v,
+                    4 => p.hours = v,
+                    5 => p.minutes = v,
+                    6 => p.seconds = v,
+                    7 => p.milliseconds = v,
+                    8 => p.microseconds = v,
+                    _ => p.nanoseconds = v,
+                }
+            }
+        }
+        let r = Duration::from_partial_duration(p);
+        if c.mask & 0x3ff == 0 {
+            match r {
+                Err(e) if e.kind() == ErrorKind::Type => {}
+                other => o = o.fail("C09/from_partial/empty", "TypeError", format!("{:?}", other.map(|d| duration_fields(&d)).map_err(|e| err_str(&e)))),
+            }
+        } else {
+            let wv = valid_f64s(&g);
+            match r {
+                Ok(d) => {
+                    chk!(o, wv, "C09/from_partial/accepted-invalid", "RangeError", g);
+                    chk!(o, fields_eq(&duration_fields(&d), &g), "C09/from_partial/fields", g, duration_fields(&d));
+                }
+                Err(e) => chk!(o, !wv && e.kind() == ErrorKind::Range, "C09/from_partial/error", if wv { "Ok" } else { "RangeError" }, err_str(&e)),
+            }
+        }
+        o
+    }
 }
 
-pub fn replay(_ctx: &mut Ctx, _sub: &str, _case: &Value) -> bool {
-    false
+// ------------------------------------------------------------------------------------------
+// add / subtract / compare of calendar-free durations
+
+#[derive(Serialize, Deserialize, Debug, Clone)]
+pub struct PairCase {
+    pub a: Dur,
+    pub b: Dur,
+}
+pub struct PairSub;
+impl SubCheck for PairSub {
+    type Case = PairCase;
+    fn name(&self) -> &'static str {
+        "pair"
+    }
+    fn eval(&self, c: &PairCase) -> Outcome {
+        let (ta, tb) = (c.a.time_ns_with_days(), c.b.time_ns_with_days());
+        let sum = ta + tb;
+        let largest = c.a.largest_unit().larger_of(c.b.largest_unit());
+        let want = balance_time(sum, largest);
+        let want_ok = sum.abs() < MAX_TIME_NS && reported_valid(&want);
+        let near = (sum.abs() - MAX_TIME_NS).abs() <= 1_000_000_000;
+        let mut o = Outcome::pass().nontrivial(c.a.sign() != c.b.sign() || near || c.a.f.iter().filter(|v| **v != 0).count() >= 2);
+        if c.a.sign() * c.b.sign() < 0 {
+            o = o.class("opposite-signs");
+        }
+        if near {
+            o = o.class("sum-near-limit");
+        }
+        if !want_ok {
+            o = o.class("sum-out-of-range");
+        }
+        let (da, db) = match (duration_from_dur(&c.a), duration_from_dur(&c.b)) {
+            (Ok(x), Ok(y)) => (x, y),
+            _ => return o.fail("C09/pair/construct", "valid", "Err"),
+        };
+        let prov = TableProvider::utc_only();
+        if c.a.has_calendar() || c.b.has_calendar() {
+            o = o.class("calendar-units");
+            // add and compare need a reference date: RangeError
+            match da.add(&db) {
+                Err(e) if e.kind() == ErrorKind::Range => {}
+                other => o = o.fail("C09/add/calendar-accepted", "RangeError", format!("{:?}", other.map(|d| duration_fields(&d)).map_err(|e| err_str(&e)))),
+            }
+            if !(fields_eq(&c.a.to_f64s(), &c.b.to_f64s())) {
+                match da.compare_with_provider(&db, None, &prov) {
+                    Err(e) if e.kind() == ErrorKind::Range => {}
+                    other => o = o.fail("C09/compare/calendar-accepted", "RangeError", format!("{:?}", other.map_err(|e| err_str(&e)))),
+                }
+            }
+            return o;
+        }
+        let wf = want.to_f64s();
+        let r = da.add(&db);
+        match &r {
+            Ok(d) => {
+                if !want_ok {
+                    return o.fail("C09/add/accepted-out-of-range", "RangeError", format!("{:?}", duration_fields(d)));
+                }
+                chk!(o, fields_eq(&duration_fields(d), &wf), "C09/add/mismatch", wf, duration_fields(d));
+            }
+            Err(e) => {
+                if want_ok || e.kind() != ErrorKind::Range {
+                    return o.fail("C09/add/error", format!("{wf:?}"), err_str(e));
+                }
+            }
+        }
+        // commutative
+        match (&r, db.add(&da)) {
+            (Ok(x), Ok(y)) => chk!(o, fields_eq(&duration_fields(x), &duration_fields(&y)), "C09/add/not-commutative", duration_fields(x), duration_fields(&y)),
+            (Err(_), Err(_)) => {}
+            _ => o = o.fail("C09/add/not-commutative/verdict", "same verdict", "differs"),
+        }
+        // subtract == add(negated)
+        match (da.subtract(&db), da.add(&db.negated())) {
+            (Ok(x), Ok(y)) => chk!(o, fields_eq(&duration_fields(&x), &duration_fields(&y)), "C09/subtract", duration_fields(&y), duration_fields(&x)),
+            (Err(_), Err(_)) => {}
+            _ => o = o.fail("C09/subtract/verdict", "same verdict", "differs"),
+        }
+        // subtract against the model
+        let diff = ta - tb;
+        let wd = balance_time(diff, largest);
+        if diff.abs() < MAX_TIME_NS && reported_valid(&wd) {
+            match da.subtract(&db) {
+                Ok(x) => chk!(o, fields_eq(&duration_fields(&x), &wd.to_f64s()), "C09/subtract/mismatch", wd.to_f64s(), duration_fields(&x)),
+                Err(e) => o = o.fail("C09/subtract/error", format!("{:?}", wd.to_f64s()), err_str(&e)),
+            }
+        }
+        // compare: total order of exact totals
+        let wc = ta.cmp(&tb);
+        match da.compare_with_provider(&db, None, &prov) {
+            Ok(g) => chk!(o, g == wc, "C09/compare/mismatch", wc, g),
+            Err(e) => o = o.fail("C09/compare/error", format!("{wc:?}"), err_str(&e)),
+        }
+        match db.compare_with_provider(&da, None, &prov) {
+            Ok(g) => chk!(o, g == wc.reverse(), "C09/compare/antisymmetry", wc.reverse(), g),
+            Err(e) => o = o.fail("C09/compare/error", format!("{:?}", wc.reverse()), err_str(&e)),
+        }
+        if wc == Ordering::Equal {
+            o = o.class("equal-totals");
+        }
+        o
+    }
+}
+
+// ------------------------------------------------------------------------------------------
+// round / total without relativeTo
+
+#[derive(Serialize, Deserialize, Debug, Clone)]
+pub struct RoundCase {
+    pub d: Dur,
+    pub largest: LargestOpt,
+    pub smallest: Option<U>,
+    pub inc: u32,
+    pub mode: Option<Mode>,
+    pub total_unit: U,
+}
+#[derive(Serialize, Deserialize, Debug, Clone, Copy, PartialEq, Eq)]
+pub enum LargestOpt {
+    Absent,
+    Auto,
+    Unit(U),
+}
+pub struct RoundSub;
+impl SubCheck for RoundSub {
+    type Case = RoundCase;
+    fn name(&self) -> &'static str {
+        "round"
+    }
+    fn eval(&self, c: &RoundCase) -> Outcome {
+        let x = c.d.time_ns_with_days();
+        let smallest = c.smallest.unwrap_or(U::Nanosecond);
+        let existing = c.d.largest_unit();
+        let largest = match c.largest {
+            LargestOpt::Unit(u) => u,
+            _ => existing.larger_of(smallest),
+        };
+        let m = c.mode.unwrap_or(Mode::HalfExpand);
+        let q = c.inc as i128 * smallest.ns();
+        let xr = round_int(x, q, m);
+        let want = balance_time(xr, largest);
+        let want_ok = xr.abs() < MAX_TIME_NS && reported_valid(&want);
+        let moved = xr != x;
+        let mut o = Outcome::pass().nontrivial(moved || c.d.sign() < 0 || c.d.f.iter().filter(|v| **v != 0).count() >= 2);
+        if moved {
+            o = o.class("rounding-moves");
+        }
+        if x.rem_euclid(q) * 2 == q {
+            o = o.class("tie");
+        }
+        if c.d.sign() < 0 {
+            o = o.class("negative");
+        }
+        if c.d.f[3] != 0 {
+            o = o.class("has-days");
+        }
+        let d = match duration_from_dur(&c.d) {
+            Ok(d) => d,
+            Err(e) => return o.fail("C09/round/construct", "valid", err_str(&e)),
+        };
+        let prov = TableProvider::utc_only();
+        let lopt = match c.largest {
+            LargestOpt::Absent => None,
+            LargestOpt::Auto => Some(Unit::Auto),
+            LargestOpt::Unit(u) => Some(unit(u)),
+        };
+        let opts = round_options(lopt, c.smallest.map(unit), Some(c.inc), c.mode.map(mode));
+        let wf = want.to_f64s();
+        let r = d.round_with_provider(opts, None, &prov);
+        match &r {
+            Ok(g) => {
+                if !want_ok {
+                    return o.fail("C09/round/accepted-out-of-range", "RangeError", format!("{:?}", duration_fields(g)));
+                }
+                chk!(o, fields_eq(&duration_fields(g), &wf), "C09/round/mismatch", wf, duration_fields(g));
+            }
+            Err(e) => {
+                if want_ok || e.kind() != ErrorKind::Range {
+                    return o.fail("C09/round/error", format!("{wf:?}"), err_str(e));
+                }
+                o = o.class("leaves-range");
+            }
+        }
+        // round(-d, mode) == -round(d, mirrored mode)
+        let opts_m = round_options(lopt, c.smallest.map(unit), Some(c.inc), Some(mode(m.negated())));
+        match (&r, d.negated().round_with_provider(opts_m, None, &prov)) {
+            (Ok(a), Ok(b)) => chk!(o, fields_eq(&duration_fields(&a.negated()), &duration_fields(&b)), "C09/round/negation-law", duration_fields(&a.negated()), duration_fields(&b)),
+            (Err(_), Err(_)) => {}
+            (a, b) => o = o.fail("C09/round/negation-law/verdict", format!("{:?}", a.as_ref().map(duration_fields).map_err(err_str)), format!("{:?}", b.map(|d| duration_fields(&d)).map_err(|e| err_str(&e)))),
+        }
+        // total(unit): exact total / unit length, correctly rounded (tolerance 1 ulp)
+        let wt = ratio_to_f64(x, c.total_unit.ns());
+        match d.total_with_provider(unit(c.total_unit), None, &prov) {
+            Ok(t) => {
+                let g = t.as_inner();
+                let ulps = ulp_distance(g, wt);
+                if ulps == 1 {
+                    o = o.class("total-1ulp-off");
+                }
+                chk!(o, ulps <= 1, "C09/total/mismatch", wt, g);
+            }
+            Err(e) => o = o.fail("C09/total/error", format!("{wt:e}"), err_str(&e)),
+        }
+        o
+    }
+}
+
+// ------------------------------------------------------------------------------------------
+// generators
+
+fn f64_field(lim: i128) -> BoxedStrategy<f64> {
+    prop_oneof![
+        6 => Just(0.0f64),
+        4 => (0i64..=40).prop_map(|v| v as f64),
+        2 => (0i64..=1_000_000).prop_map(|v| v as f64),
+        2 => (-3i128..=3).prop_map(move |k| gen::through_f64(lim + k) as f64),
+        1 => (0i128..=lim.max(1)).prop_map(|v| gen::through_f64(v) as f64),
+        1 => (-2i64..=2).prop_map(|k| (4294967296i64 + k) as f64),
+        1 => (-2i64..=2).prop_map(|k| (2147483648i64 + k) as f64),
+        1 => (0u32..=300).prop_map(|e| 2f64.powi(e as i32)),
+        1 => Just(9007199254740992.0f64),
+        1 => Just(1e300f64),
+    ]
+    .boxed()
+}
+
+fn new_case() -> BoxedStrategy<NewCase> {
+    let lims: [i128; 10] = [TWO32, TWO32, TWO32, MAX_TIME_NS / UNIT_NS[3], MAX_TIME_NS / UNIT_NS[4], MAX_TIME_NS / UNIT_NS[5], MAX_TIME_NS / UNIT_NS[6], MAX_TIME_NS / UNIT_NS[7], MAX_TIME_NS / UNIT_NS[8], MAX_TIME_NS];
+    let fields: Vec<BoxedStrategy<f64>> = lims.iter().map(|l| f64_field(*l)).collect();
+    // limit-distributed totals: seconds near 2^53 split over several fields
+    let split = (0i128..=2_000_000_000, 0i128..1000, 0i128..1000, 0i128..1000, prop::bool::ANY).prop_map(|(below, ms, us, ns, neg)| {
+        // total = 2^53 s - below ns, expressed as seconds + ms + us + ns pieces that are exact doubles
+        let total = MAX_TIME_NS - below;
+        let sub = ms * 1_000_000 + us * 1_000 + ns;
+        let rest = total - sub;
+        let secs = rest / 1_000_000_000;
+        let extra_ns = rest % 1_000_000_000;
+        let mut f = [0.0f64; 10];
+        f[6] = gen::through_f64(secs) as f64;
+        f[7] = ms as f64;
+        f[8] = us as f64;
+        f[9] = (ns + extra_ns) as f64;
+        if neg {
+            for v in f.iter_mut() {
+                *v = -*v;
+            }
+        }
+        f
+    });
+    let general = (fields, 0u8..4, 0u16..1024, 0u16..1024).prop_map(|(v, signs, flip, keep)| {
+        let mut f = [0.0f64; 10];
+        for i in 0..10 {
+            f[i] = if keep & (1 << i) != 0 || keep % 7 == 0 { v[i] } else { 0.0 };
+        }
+        match signs {
+            0 => {}
+            1 => f.iter_mut().for_each(|x| *x = -*x),
+            // invalid class: per-field signs
+            _ => {
+                for i in 0..10 {
+                    if flip & (1 << i) != 0 {
+                        f[i] = -f[i];
+                    }
+                }
+            }
+        }
+        f
+    });
+    (prop_oneof![4 => general, 1 => split], 0u16..1024, prop::bool::weighted(0.1)).prop_map(|(f, mask, empty)| NewCase { f, mask: if empty { 0 } else { mask } }).boxed()
+}
+
+/// valid durations: calendar-free (mostly) with days and time fields, limit-biased
+fn free_dur(calendar_prob: f64) -> BoxedStrategy<Dur> {
+    (gen::valid_time_dur(), prop_oneof![5 => Just(0i128), 3 => 0i128..=40, 1 => 0i128..=104_249_991_374i128], prop::bool::weighted(calendar_prob), 0usize..3, 1i128..=20)
+        .prop_map(|(t, days, cal, idx, v)| {
+            let mut f = t.f;
+            let s = if t.sign() < 0 { -1 } else { 1 };
+            f[3] = s * days;
+            if cal {
+                f[idx] = s * v;
+            }
+            Dur { f }
+        })
+        .prop_filter("valid", |d| d.valid())
+        .boxed()
+}
+
+fn pair_case() -> BoxedStrategy<PairCase> {
+    (free_dur(0.03), free_dur(0.03), 0u8..6)
+        .prop_map(|(a, b, k)| match k {
+            // equal totals expressed differently
+            0 => {
+                let t = a.time_ns_with_days();
+                let b2 = balance_time(t, U::Second);
+                if b2.valid() && b2.to_f64s().iter().zip(b2.f.iter()).all(|(x, y)| *x as i128 == *y) {
+                    PairCase { a, b: b2 }
+                } else {
+                    PairCase { a, b }
+                }
+            }
+            1 => PairCase { a, b: b.negated() },
+            _ => PairCase { a, b },
+        })
+        .boxed()
+}
+
+fn round_case() -> BoxedStrategy<RoundCase> {
+    let small = prop_oneof![1 => Just(None), 8 => gen::unit_in(3, 9).prop_map(Some)];
+    (free_dur(0.0), small, gen::unit_in(3, 9), 0u8..3, prop::option::weighted(0.85, gen::mode()), gen::unit_in(3, 9), 0usize..64, prop::bool::weighted(0.3))
+        .prop_map(|(d, smallest, lu, lk, mode, total_unit, inc_idx, tie)| {
+            let s = smallest.unwrap_or(U::Nanosecond);
+            let incs: Vec<u32> = match s.max_increment() {
+                Some(m) => gen::divisors_below(m).into_iter().map(|x| x as u32).collect(),
+                None => vec![1, 2, 3, 5, 7, 10, 30, 100],
+            };
+            let inc = incs[inc_idx * incs.len() / 64];
+            // largest: absent / auto / explicit unit not smaller than smallest
+            let largest = match lk {
+                0 if smallest.is_some() => LargestOpt::Absent,
+                1 => LargestOpt::Auto,
+                _ => LargestOpt::Unit(if lu.idx() <= s.idx() { lu } else { s }),
+            };
+            // optionally move the duration onto an exact tie of the increment
+            let mut d = d;
+            if tie {
+                let q = inc as i128 * s.ns();
+                if q % 2 == 0 {
+                    let x = d.time_ns_with_days();
+                    let t = x - x.rem_euclid(q) + q / 2;
+                    let cand = balance_time(t, U::Hour);
+                    if cand.valid() && cand.to_f64s().iter().zip(cand.f.iter()).all(|(a, b)| *a as i128 == *b) {
+                        d = cand;
+                    }
+                }
+            }
+            RoundCase { d, largest, smallest, inc, mode, total_unit }
+        })
+        .boxed()
+}
+
+pub fn run(ctx: &mut Ctx) {
+    ctx.rule = "new: ten-field vectors of integral doubles (0, small, field limits +-3, 2^31+-k, 2^32+-k, powers of two up to 2^300, 1e300, totals of 2^53 s minus up to 2 s split over seconds/ms/us/ns, one sign or per-field signs) -> Duration::new/from_partial_duration Ok iff the exact definition holds, plus sign/abs/negated/is_zero; pair: calendar-free valid durations (and 3% with calendar units -> RangeError) -> add == exact sum balanced to the larger largest unit or RangeError, commutative, subtract == add(-b), compare == order of exact totals (classes: equal totals in different shapes, opposite signs); round: round(opts) == balance(round(exact total, inc x unit, mode), largest) over all admissible (largest absent/auto/unit, smallest day..ns, increment, mode absent/9 modes) incl. exact ties, round(-d) == -round(d, mirrored mode), total(unit) == correctly rounded exact quotient (<= 1 ulp). non-trivial = >= 2 non-zero fields, any field >= 2^31, total within 1 s of the 2^53 s limit, negative, rounding moves the value.".into();
+    ctx.assumptions = vec!["float results (total) are compared with the correctly rounded exact rational, tolerance 1 ulp (distance recorded as class total-1ulp-off)".into()];
+    let t = ctx.tier;
+    ctx.run_prop(&NewSub, &new_case, t.pick(600_000, 20_000_000));
+    ctx.run_prop(&PairSub, &pair_case, t.pick(500_000, 15_000_000));
+    ctx.run_prop(&RoundSub, &round_case, t.pick(500_000, 15_000_000));
+}
+
+pub fn replay(ctx: &mut Ctx, sub: &str, case: &Value) -> bool {
+    match sub {
+        "new" => ctx.replay_case(&NewSub, case),
+        "pair" => ctx.replay_case(&PairSub, case),
+        "round" => ctx.replay_case(&RoundSub, case),
+        _ => false,
+    }
 }
